@@ -30,6 +30,21 @@ def build(name: str) -> Any:
     s0, s1, s2 = P.Symbol('s0'), P.Symbol('s1'), P.Symbol('s2')
     from proof_generation.proofs.propositional import neg
 
+    if name == 'rev-symbols':
+        # mentions its symbols in another first-use order than the other menu modules (s2 before s0)
+        n = P.Implies(s2, s0)
+        pe = ProofExp(axioms=[n], claims=[n])
+        pe.add_proof_expression(pe.load_axiom(n))
+        return pe
+    if name == 'three-imports':
+        # a parent without axioms of its own that imports three one-axiom modules
+        subs = [ProofExp(axioms=[P.Implies(a, b)]) for a, b in ((s0, s1), (s1, s2), (s2, s0))]
+        c = P.Implies(s0, s1)
+        pe = ProofExp(claims=[c])
+        for m in subs:
+            pe.import_module(m)
+        pe.add_proof_expression(subs[0].load_axiom(c))
+        return pe
     if name == 'neg-raw':
         # uses the notation object neg without importing the module that declares it: its notation table is empty,
         # so the same stack items are rendered differently than in 'neg-known'
